@@ -362,7 +362,8 @@ def body_bending(rec, **c):
         return (4 * d1 - d2) / 3 * speed
     for name, which, got in (("i", 0, di), ("j", 1, dj), ("k", 2, dk)):
         want = fd(which)
-        if not close(got, want, 1e-6, 1e-7 * mag + 1e-9 * c["k"] * speed / h * 1e-5):
+        # absolute floor: rounding of the model energy (~ eps k pi^2) divided by the difference step
+        if not close(got, want, 1e-6, 1e-7 * mag + 1e-13 * c["k"] * speed / h):
             rec.fail("bending/value", "derivative with respect to unit %s is %r, central difference of the model "
                      "energy %r" % (name, got, want), c)
     rec.case("bending/dim%d" % dim, (tuple(ri), tuple(rk), c["phi0"], c["k"], d), mag > 0.0, c)
